@@ -236,7 +236,7 @@ def gen_frame(rng, tier, big=False):
     dk = rng.choice(["n", "n", "d", "c"])
     dlen = rng.choice(DICT_SIZES) if dk != "n" else 0
     if kind == "volatile":
-        n = max(n, min(4 * bs, 300000))
+        n = max(n, min(3 * bs, 200000))
     if kind == "indep":
         n = rng.choice([10000, 30000, 70000])
         dk = rng.choice(["n", "d", "c", "c"])
